@@ -274,6 +274,12 @@ func goTypeData(r *prng.Rand, typ int, text bool) []byte {
 				return model.NewSeq(model.Struct, model.NewInt(int64(r.Intn(90))).Named(model.T("deg")))
 			}
 			v = model.NewSeq(model.Struct, t().Named(model.T("t")), t().Named(model.T("p")), model.NewSeq(model.List, t()).Named(model.T("l")))
+		case 18:
+			v = model.NewSeq(model.Struct, model.NewInt(0).Named(model.T("v")))
+			for d := r.Range(100, 300); d > 0; d-- {
+				v = model.NewSeq(model.Struct, model.NewInt(int64(d)).Named(model.T("v")), v.Named(model.T("next")))
+			}
+			v.Field = nil
 		default:
 			// annotated scalars and sequences for the annotation wrappers (the value kind matches the wrapper most of the time)
 			k := typ % drive.CTypeCount
@@ -369,6 +375,22 @@ func concTask(r *prng.Rand, w drive.CWorld, cat *model.Catalog, typePool []int) 
 			fix(v)
 		}
 		t := drive.CTask{Kind: "write", Writer: concWriterKind(r), Imports: concImports(r, w), Ops: drive.DocOps(vals)}
+		if r.Chance(1, 4) && len(t.Ops) > 0 {
+			// a caller mistake somewhere in the sequence: the call fails, the writer stays failed, and the messages it
+			// reports from then on are part of this task's output
+			bad := []drive.WOp{{Op: "endlist"}, {Op: "endsexp"}, {Op: "endstruct"}, {Op: "field", Sym: &model.Sym{Text: "a1", HasText: true}},
+				{Op: "beginstruct"}, {Op: "finish"}}[r.Intn(6)]
+			at := r.Intn(len(t.Ops) + 1)
+			ops := append([]drive.WOp{}, t.Ops[:at]...)
+			ops = append(ops, bad)
+			if bad.Op == "beginstruct" {
+				ops = append(ops, drive.WOp{Op: []string{"int", "string", "null"}[r.Intn(3)], V: model.NewInt(1)}) // a value without a field name
+				if ops[len(ops)-1].Op == "string" {
+					ops[len(ops)-1].V = model.NewString("s")
+				}
+			}
+			t.Ops = append(ops, t.Ops[at:]...)
+		}
 		if t.Writer == "binary-lst" {
 			t.LSTSymbols = append(symbolTexts(vals), "extra")
 		}
